@@ -10,7 +10,7 @@ import (
 type orC01 struct {
 	baseOracle
 	heldAtFreeze map[*iterRec]map[string]GTIDSet
-	lastProm map[string]uint64 // iteration key -> seq of promotion
+	lastProm     map[string]uint64 // iteration key -> seq of promotion
 }
 
 func (o *orC01) name() string { return "C01" }
